@@ -36,7 +36,7 @@ func genC34(t *rapid.T) C34Case {
 	if c.Concurrent && rapid.IntRange(0, 1).Draw(t, "third") == 0 {
 		c.Roots = append(c.Roots, genRoots(t, c.Graph.N))
 	}
-	c.Sched = Sched{Tape: genTape(t, 400), Disabled: genDisabled(t, incrOptional), PCT: genPCT(t, 200)}
+	c.Sched = Sched{Tape: genTape(t, 400), Disabled: genDisabled(t, incrOptional), PCT: genPCT(t, 200), Tail: genTail(t)}
 	return c
 }
 
